@@ -173,6 +173,14 @@ check("C11", "model_checking",
       "Trusted: the expected-target table in checks/c11.py (derived from the user guide's lookup rules); expected URLs are those FORD assigns to the expected entity. Three genuine defects are listed known findings keyed by spelling/context.",
       "exhaustive product of reference spellings x contexts x display pages against a reference resolver", "DESIGN.md 5/C11")
 
+check("C16", "model_checking",
+      "Histories [build A(opts1)] [rebuild A(opts2)] [damage modules.json] [build B] are enumerated: A's option sets x the external given as relative path / absolute path / "
+      "http URL without and with trailing slash (urlopen stubbed to serve A's output) x [[...]] reference styles; rebuild pairs; a module-level name clash; modules.json absent, "
+      "empty, not JSON, of 6 wrong shapes and truncated after structural characters (thorough: every one). Oracle: modules.json lists exactly A's modules with exactly their public "
+      "entities and only URLs that exist in A's output; every link of B that leaves B's tree resolves to an existing page (and anchor) of A named after the entity; B's own entities win; a damaged description never aborts B.",
+      "Trusted: the history driver and oracles in checks/c16.py; remote access is stubbed. 'Documents the entity' is approximated by file stem + anchor existence in A's output.",
+      "exhaustive enumeration of build/damage histories with a cross-project link-resolving oracle", "DESIGN.md 5/C16")
+
 ALL = [f"C{i:02d}" for i in range(1, 21)]
 PENDING_REASON = "check not built yet in this round (planned: see DESIGN.md section 5); will be claimed once its exhaustive check exists"
 
